@@ -563,3 +563,138 @@ def if_chain(node):
         if node.orelse:
             out.append((None, node.orelse))
         return out
+
+
+# --------------------------------------------------------------------------- constant folding of pure table-building code
+
+class NotConstant(Exception):
+    pass
+
+
+_PURE_BUILTINS = {'len': len, 'set': set, 'frozenset': frozenset, 'dict': dict, 'list': list, 'tuple': tuple, 'sorted': sorted, 'enumerate': enumerate,
+                  'range': range, 'zip': zip, 'min': min, 'max': max, 'sum': sum, 'reversed': reversed, 'str': str, 'int': int, 'bool': bool}
+
+
+def const_eval(mod, node, env=None, depth=0):
+    """Evaluate a side-effect free constant expression (literals, comprehensions over literals, slices, pure builtins,
+    module-level constants).  This is constant folding of the repository's table-building code, nothing more: any
+    construct outside the whitelist raises NotConstant."""
+    env = env or {}
+    if depth > 40:
+        raise NotConstant('depth')
+
+    def ev(n, env):
+        return const_eval(mod, n, env, depth + 1)
+    if isinstance(node, ast.Constant):
+        return node.value
+    if isinstance(node, ast.Name):
+        if node.id in env:
+            return env[node.id]
+        if node.id in mod.assigns and len(mod.assigns[node.id]) == 1:
+            return const_eval(mod, mod.assigns[node.id][0], {}, depth + 1)
+        if node.id in _PURE_BUILTINS:
+            return _PURE_BUILTINS[node.id]
+        raise NotConstant(node.id)
+    if isinstance(node, ast.Tuple):
+        return tuple(ev(e, env) for e in node.elts)
+    if isinstance(node, ast.List):
+        return [ev(e, env) for e in node.elts]
+    if isinstance(node, ast.Set):
+        return {ev(e, env) for e in node.elts}
+    if isinstance(node, ast.Dict):
+        out = {}
+        for k, v in zip(node.keys, node.values):
+            if k is None:
+                out.update(ev(v, env))
+            else:
+                out[ev(k, env)] = ev(v, env)
+        return out
+    if isinstance(node, (ast.ListComp, ast.SetComp, ast.GeneratorExp, ast.DictComp)):
+        results = []
+
+        def rec(ix, env):
+            if ix == len(node.generators):
+                if isinstance(node, ast.DictComp):
+                    results.append((ev(node.key, env), ev(node.value, env)))
+                else:
+                    results.append(ev(node.elt, env))
+                return
+            g = node.generators[ix]
+            for item in ev(g.iter, env):
+                e2 = dict(env)
+                _bind(g.target, item, e2)
+                if all(ev(c, e2) for c in g.ifs):
+                    rec(ix + 1, e2)
+        rec(0, env)
+        if isinstance(node, ast.DictComp):
+            return dict(results)
+        if isinstance(node, ast.SetComp):
+            return set(results)
+        return results
+    if isinstance(node, ast.Subscript):
+        base = ev(node.value, env)
+        if isinstance(node.slice, ast.Slice):
+            lo = ev(node.slice.lower, env) if node.slice.lower is not None else None
+            hi = ev(node.slice.upper, env) if node.slice.upper is not None else None
+            st = ev(node.slice.step, env) if node.slice.step is not None else None
+            return base[lo:hi:st]
+        return base[ev(node.slice, env)]
+    if isinstance(node, ast.BinOp):
+        a, b = ev(node.left, env), ev(node.right, env)
+        ops = {ast.Add: lambda: a + b, ast.Sub: lambda: a - b, ast.Mult: lambda: a * b, ast.BitOr: lambda: a | b, ast.BitAnd: lambda: a & b}
+        if type(node.op) in ops:
+            return ops[type(node.op)]()
+        raise NotConstant('binop')
+    if isinstance(node, ast.UnaryOp) and isinstance(node.op, (ast.USub, ast.Not)):
+        v = ev(node.operand, env)
+        return -v if isinstance(node.op, ast.USub) else not v
+    if isinstance(node, ast.Compare) and len(node.ops) == 1:
+        a, b = ev(node.left, env), ev(node.comparators[0], env)
+        table = {ast.Eq: a == b, ast.NotEq: a != b, ast.In: None, ast.NotIn: None}
+        op = type(node.ops[0])
+        if op is ast.In:
+            return a in b
+        if op is ast.NotIn:
+            return a not in b
+        if op in (ast.Lt, ast.LtE, ast.Gt, ast.GtE):
+            return {ast.Lt: a < b, ast.LtE: a <= b, ast.Gt: a > b, ast.GtE: a >= b}[op]
+        if op in table:
+            return table[op]
+        raise NotConstant('compare')
+    if isinstance(node, ast.IfExp):
+        return ev(node.body, env) if ev(node.test, env) else ev(node.orelse, env)
+    if isinstance(node, ast.BoolOp):
+        val = None
+        for v in node.values:
+            val = ev(v, env)
+            if isinstance(node.op, ast.And) and not val:
+                return val
+            if isinstance(node.op, ast.Or) and val:
+                return val
+        return val
+    if isinstance(node, ast.Call):
+        if isinstance(node.func, ast.Name) and node.func.id in _PURE_BUILTINS and not node.keywords:
+            fn = _PURE_BUILTINS[node.func.id]
+            args = [ev(a, env) for a in node.args]
+            out = fn(*args)
+            return list(out) if node.func.id in ('enumerate', 'zip', 'range', 'reversed') else out
+        if isinstance(node.func, ast.Attribute) and node.func.attr in ('items', 'keys', 'values', 'union', 'split', 'join', 'index') and not node.keywords:
+            base = ev(node.func.value, env)
+            args = [ev(a, env) for a in node.args]
+            out = getattr(base, node.func.attr)(*args)
+            return list(out) if node.func.attr in ('items', 'keys', 'values') else out
+        raise NotConstant(norm(node.func))
+    raise NotConstant(type(node).__name__)
+
+
+def _bind(target, value, env):
+    if isinstance(target, ast.Name):
+        env[target.id] = value
+    elif isinstance(target, (ast.Tuple, ast.List)):
+        vals = list(value)
+        if len(vals) != len(target.elts):
+            raise NotConstant('unpack')
+        for t, v in zip(target.elts, vals):
+            _bind(t, v, env)
+    else:
+        raise NotConstant('target')
